@@ -276,13 +276,21 @@ func (m *LeaseManager) Release(resourceID string) {
 	if ok {
 		delete(m.owned, resourceID)
 	}
+	session := m.session
 	m.mu.Unlock()
 
 	if ok {
 		leaseKey := m.leaseKey(resourceID)
 		ctx, cancel := context.WithTimeout(context.Background(), 5*time.Second)
 		defer cancel()
-		if _, err := m.client.Delete(ctx, leaseKey); err != nil {
+		// Delete the key only while it is still ours. Our session may have
+		// lapsed on the server without us knowing yet; another broker can then
+		// hold the key, and an unconditional delete would take its lease away.
+		cmps := []clientv3.Cmp{clientv3.Compare(clientv3.Value(leaseKey), "=", m.brokerID)}
+		if session != nil {
+			cmps = append(cmps, clientv3.Compare(clientv3.LeaseValue(leaseKey), "=", session.Lease()))
+		}
+		if _, err := m.client.Txn(ctx).If(cmps...).Then(clientv3.OpDelete(leaseKey)).Commit(); err != nil {
 			m.logger.Warn(fmt.Sprintf("failed to delete %s lease key", m.resourceKind),
 				"key", leaseKey, "error", err)
 		}
